@@ -147,7 +147,8 @@ class SymRandom(random.Random):
 
     def gauss(self, mu=0.0, sigma=1.0):
         self.n += 1
-        return mu + sigma * self.g.real(f"{self.tag}_g{self.n}")
+        self.last_g = self.g.real(f"{self.tag}_g{self.n}")
+        return mu + sigma * self.last_g
 
     def choices(self, population, weights=None, *, cum_weights=None, k=1):
         pop = list(population)
